@@ -81,3 +81,28 @@ PROPS["C04"] = dict(
                  "sequence contents are random with 2-20% wildcards; adversarial contents are not needed because "
                  "striping is content-oblivious (checked in MC for all contents)"],
 )
+
+
+PROPS["C05"] = dict(
+    mc=[
+        dict(name="MC_Encode_W2", module="MC_Encode", invariants=["RefinesLe", "RefinesLt", "RoundTrip", "AcceptIff"],
+             constants=dict(W=2), quick=dict(MaxLen=6), thorough=dict(MaxLen=8), actions=["Extend"]),
+        dict(name="MC_Encode_W3", module="MC_Encode", invariants=["RefinesLe", "RefinesLt", "RoundTrip", "AcceptIff"],
+             constants=dict(W=3), quick=dict(MaxLen=8), thorough=dict(MaxLen=9), actions=["Extend"]),
+        dict(name="MC_Encode_W4", module="MC_Encode", invariants=["RefinesLe", "RefinesLt", "RoundTrip", "AcceptIff"],
+             constants=dict(W=4), quick=dict(MaxLen=8), thorough=dict(MaxLen=10), actions=["Extend"]),
+    ],
+    record=True, trace="Trace_C05", shards=12,
+    level_text="The encoder definition (accept iff all bytes are letters, ranks, first offending byte, display round trip) "
+               "is the D-layer; the block encoders (vector width W, both loop tests, error flag, rescan, scalar tail) are "
+               "model-checked against it for every string over two letters and two non-letters up to 2W+2 bytes, and every "
+               "recorded call of the real generic / SSE2 / AVX2 / dispatched (each arm forced) encoders, DNA and protein, "
+               "through encode / encode_raw / encode_into / EncodedSequence::encode / from_str is validated by TLC against "
+               "the same definition.",
+    level_note="MC at W in {2,3,4}; real widths 16/32 only by recorded executions (lengths 0..100, 127..129, 255..257; "
+               "one invalid byte at block-relative positions (all positions in thorough), two invalid bytes, all 256 byte "
+               "values at lane 0 / last lane / first tail byte). NEON not executable. Trusted: TLC, Json module.",
+    rule="impl->spec: one event per encode call {backend, arm, alphabet, api, bytes, outcome}; "
+         "distinct_nontrivial = distinct (alphabet, byte string) inputs, each run on six backend configurations.",
+    assumptions=["InvalidSymbol carries the offending byte as a char (bytes >= 0x80 as Latin-1 code points)"],
+)
